@@ -12,6 +12,11 @@ CLAIMED = {
             "discharges 'pairs satisfy the predicate' and 'no larger one-to-one pairing exists'; counterexamples are replayed on the real code.",
             "Bounds: graphs <=3x3 quick / 4x4 thorough (all edge sets), events <=3x3 / 4x5, notes 2x2 / 3x3 on the 1e-4 s lattice; exact real arithmetic; "
             "trusted: z3, the NumPy proxy (cross-validated against real NumPy on every path witness).", "5 (C05)"),
+    "C13": ("Bounded symbolic model checking of the real interval helpers against the labelling-function definition with a universally "
+            "quantified instant: every path of adjust_intervals/merge_labeled_intervals/interpolate_intervals/intervals_to_samples/"
+            "boundaries<->intervals/sort_labeled_intervals within the shapes is discharged by z3; witnesses replayed on the real code.",
+            "Bounds: <=3 (quick) / <=4 (thorough) input intervals incl. gaps, every position of t_min/t_max (also None), <=3/<=5 sample points; "
+            "compare-only code so real-arithmetic verdicts transfer to finite floats; adjust_events only for ranges overlapping the events.", "5 (C13)"),
 }
 
 NA_REASON = "check not built yet in this revision (planned; see DESIGN.md section 5)"
